@@ -68,7 +68,7 @@ fn expected(op: u8, nums: &[N]) -> Result<N> {
 //@ role twin
 //@ nokani
 //@ grid 400000
-//@ twin_of {OP:1}
+//@ twin_of base_folds:{OP:1}
 pub fn h_fold_{OP:1}(s: &mut In) -> HR {
     let n = (s.u8() % 4) as usize;
     let (x, y, z) = (draw_number(s), draw_number(s), draw_number(s));
